@@ -444,6 +444,34 @@ def withinK (E : Env) : Nat → List (Key × Res) → Bool
   | n, (_, r) :: rs => within E n r && withinK E n rs
 end
 
+mutual
+/-- every data-class instance of a result with the level it sits at: `(class, level)`, the outermost instance of a
+result that starts `n` levels deep being level `n + 1`.  Plain recursion over the result tree — no reference to the
+parser or to its limit check. -/
+def levels : Nat → Res → List (Nat × Nat)
+  | _, .leaf _ => []
+  | _, .none => []
+  | n, .data k fs => (k, n + 1) :: levelsF (n + 1) fs
+  | n, .list rs => levelsL n rs
+  | n, .tuple rs => levelsL n rs
+  | n, .dict kvs => levelsK n kvs
+def levelsL : Nat → List Res → List (Nat × Nat)
+  | _, [] => []
+  | n, r :: rs => levels n r ++ levelsL n rs
+def levelsF : Nat → List (String × Res) → List (Nat × Nat)
+  | _, [] => []
+  | n, (_, r) :: rs => levels n r ++ levelsF n rs
+def levelsK : Nat → List (Key × Res) → List (Nat × Nat)
+  | _, [] => []
+  | n, (_, r) :: rs => levels n r ++ levelsK n rs
+end
+
+/-- **The property's reading of a per-class limit, written on the result alone**: every instance belongs to a declared
+class, and if that class declares `max_depth = m` (`m ≥ 1`; `0` means "no limit", options.py:374) the instance sits at
+level `≤ m`, levels counted from the root of the parse (root = 1). -/
+def Respects (E : Env) (n : Nat) (r : Res) : Prop :=
+  ∀ p ∈ levels n r, ∃ cd, E[p.1]? = some cd ∧ ∀ m, cd.maxDepth = some m → m ≠ 0 → p.2 ≤ m
+
 /-- the same declarations without any depth limit -/
 def unlimited (E : Env) : Env := E.map fun cd => { cd with maxDepth := none }
 
